@@ -12,7 +12,7 @@ M4A = "1 2 3 4 5 6 7 8 9 10 11 13 17 19 23 29"          # det = 24... (nonzero)
 M3A = "2 3 5 7 11 13 17 19 29"
 M2A = "2 3 5 7"
 
-TRACE = {
+MANUAL = {
     "C01": [
         ("t_m2_mul", "m2.mul " + _seq(8)), ("t_m3_mul", "m3.mul " + _seq(18)), ("t_m4_mul", "m4.mul " + _seq(32)),
         ("t_m2_mul_v", "m2.mul_v " + _seq(6)), ("t_m3_mul_v", "m3.mul_v " + _seq(12)), ("t_m4_mul_v", "m4.mul_v " + _seq(20)),
@@ -157,3 +157,10 @@ TRACE = {
         ("t_q_between_vectors_same", "q.between_vectors 1 0 0 1 0 0"), ("t_q_from_arc_same", "q.from_arc 1 0 0 1 0 0"),
     ],
 }
+
+# kernels whose obligation was generated from the Lean driver tables (tools/gen_tobl.py; lean/Cgm/Trace/<pid>Auto.lean)
+try:
+    from .tracetab_auto import AUTO
+except ImportError:
+    AUTO = {}
+TRACE = {pid: list(MANUAL.get(pid, [])) + list(AUTO.get(pid, [])) for pid in sorted(set(MANUAL) | set(AUTO))}
